@@ -116,13 +116,26 @@ pub trait ExWrite {
 
 /// ghost connection log (N15 ghost field; erased at run time): .0 = every byte a read ever delivered into the receive
 /// buffer, .1 = "the last read of the most recent receive delivered 0 bytes into a non-empty window" (end of stream
-/// observed), .2 = every byte a successful write_all handed to the transport
-pub struct GhostLog(pub Ghost<Seq<u8>>, pub Ghost<bool>, pub Ghost<Seq<u8>>);
+/// observed), .2 = every byte a successful write_all handed to the transport, .3 = number of successful send / send_list
+/// calls, .4 = number of complete responses `receive` returned
+pub struct GhostLog(pub Ghost<Seq<u8>>, pub Ghost<bool>, pub Ghost<Seq<u8>>, pub Ghost<nat>, pub Ghost<nat>);
 impl std::fmt::Debug for GhostLog { #[verifier::external_body] fn fmt(&self, f: &mut std::fmt::Formatter<'_>) -> std::fmt::Result { Ok(()) } }
 impl GhostLog {
-    pub fn empty() -> (r: GhostLog) ensures r.0@ == Seq::<u8>::empty(), r.1@ == false, r.2@ == Seq::<u8>::empty() { GhostLog(Ghost(Seq::empty()), Ghost(false), Ghost(Seq::empty())) }
-    pub fn of(rx: Ghost<Seq<u8>>, eof: Ghost<bool>) -> (r: GhostLog) ensures r.0@ == rx@, r.1@ == eof@, r.2@ == Seq::<u8>::empty() { GhostLog(rx, eof, Ghost(Seq::empty())) }
+    pub fn empty() -> (r: GhostLog) ensures r.0@ == Seq::<u8>::empty(), r.1@ == false, r.2@ == Seq::<u8>::empty(), r.3@ == 0, r.4@ == 0 { GhostLog(Ghost(Seq::empty()), Ghost(false), Ghost(Seq::empty()), Ghost(0), Ghost(0)) }
+    pub fn of(rx: Ghost<Seq<u8>>, eof: Ghost<bool>) -> (r: GhostLog) ensures r.0@ == rx@, r.1@ == eof@, r.2@ == Seq::<u8>::empty(), r.3@ == 0, r.4@ == 0 { GhostLog(rx, eof, Ghost(Seq::empty()), Ghost(0), Ghost(0)) }
 }
+/// N21: `panic!(..)` / `unreachable!(..)` in lifted code become a call of this function: reaching it is an obligation
+/// (`requires false`); the message formatting is dropped
+#[verifier::external_body]
+pub fn vx_panic<T>() -> (r: T)
+    requires false
+{ panic!("vx_panic") }
+/// N21: `assert!(c)` / `assert_eq!(a, b)` in lifted code: the condition is an obligation
+#[verifier::external_body]
+pub fn vx_assert(c: bool)
+    requires c
+{ assert!(c) }
+
 /// N10 wrapper for the provided method `io::Write::write_all`
 #[verifier::external_body]
 pub fn vx_write_all<W: std::io::Write>(w: &mut W, buf: &[u8]) -> (r: std::io::Result<()>)
